@@ -445,6 +445,12 @@ fn random_case(rng: &mut Rng, rec: &mut Rec) {
     if plan.trailers.iter().any(|t| t.len() >= 98) {
         rec.cov("trailer-line/98-bytes-or-more");
     }
+    if plan.chunks.iter().any(|c| c.zeros + 1 > 20) || plan.last_zeros + 1 > 20 {
+        rec.cov("size-spelling/more-than-20-digits");
+    }
+    if plan.chunks.iter().any(|c| c.ext.map(|e| e.starts_with(' ')).unwrap_or(false)) || plan.last_ext.map(|e| e.starts_with(' ')).unwrap_or(false) {
+        rec.cov("size-spelling/blanks-before-extension");
+    }
     for _ in 0..4 {
         let k = rng.usize_in(0, 20);
         let mut cuts: Vec<usize> = (0..k)
@@ -535,6 +541,8 @@ impl Property for P {
         v.push(("tail/looks-like-last-chunk".into(), 1000));
         v.push(("boundary-stop/off".into(), 1000));
         v.push(("trailer-line/98-bytes-or-more".into(), 20));
+        v.push(("size-spelling/more-than-20-digits".into(), 20));
+        v.push(("size-spelling/blanks-before-extension".into(), 20));
         v
     }
 }
